@@ -2254,7 +2254,11 @@ impl<'a, 'b, W: Write> SerializeMap for MapSer<'a, 'b, W> {
                     // Provide a base depth for nested maps within this complex key so that
                     // continuation lines indent one level deeper than the parent mapping.
                     self.ser.current_map_depth = Some(self.depth);
-                    self.ser.after_dash_depth = None;
+                    // The key node starts right after `? `, which is as wide as `- `: it is laid
+                    // out like a sequence item after its dash (in particular a sequence or an
+                    // enum variant used as the key indents its lines under the `? `, not under
+                    // the parent mapping, also with `compact_list_indent`).
+                    self.ser.after_dash_depth = Some(self.depth);
                     key.serialize(&mut *self.ser)?;
 
                     self.ser.depth = saved_depth;
